@@ -1136,13 +1136,12 @@ Qed.
 
 End C07.
 
-(* ---- a decode failure in the header map is reported only when an argument list follows *)
+(* ---- a decode failure in the header map is reported whether or not an argument list follows *)
 
-Theorem header_error_dropped : forall lower io_dec io_dec_hdrs so svc hw name m,
+Theorem header_error_reported : forall lower io_dec io_dec_hdrs so svc hw name m,
   io_dec_hdrs (s_dec so) false hw = None -> lookup lower svc name = Some m ->
   fst (service_decode_items lower io_dec io_dec_hdrs so svc
-         [ITag t_H; IVal hw; ITag t_C; IVal (string_wire name); ITag t_z]) =
-  SDDirty {| rq_name := name; rq_headers := []; rq_method := m; rq_args := [] |}.
+         [ITag t_H; IVal hw; ITag t_C; IVal (string_wire name); ITag t_z]) = SDDecodeError.
 Proof.
   intros lower io_dec io_dec_hdrs so svc hw name m Hd Hlk.
   unfold service_decode_items. rewrite read_headers_H_gen, Hd.
@@ -1219,46 +1218,43 @@ Fixpoint jfits_all (ts : list pty) (vs : list gval) : Prop :=
   | _, _ => True
   end.
 
-Lemma jconv_args_ok : forall ts vs, length ts = length vs ->
-  Forall (fun t => t <> TSurplus) ts -> Forall jrep vs -> jfits_all ts vs ->
-  jconv_args jconv ts (map jnorm vs) = Some (Some (zipconv jconvert ts vs)).
-Proof.
-  induction ts as [|t ts IH]; intros [|v vs] Hl Hns Hr Hf; try discriminate; [reflexivity|].
-  cbn [map jconv_args zipconv]. inversion Hns; subst. inversion Hr; subst. destruct Hf as [Hf1 Hf2].
-  destruct t; try contradiction;
-    rewrite (Hvalue _ _ H3 Hf1); rewrite (IH vs ltac:(cbn in Hl; lia) H2 H4 Hf2); reflexivity.
-Qed.
+(* an argument beyond the parameters keeps its generic JSON value *)
+Definition jconvert_arg (t : pty) (v : gval) : gval :=
+  match t with TSurplus => jnorm v | _ => jconvert t v end.
 
-(* a surplus argument: paramTypes[i] is nil and Decode dereferences it *)
-Lemma jconv_args_surplus : forall ts vs rest, length ts = length vs ->
-  Forall (fun t => t <> TSurplus) ts -> Forall jrep vs -> jfits_all ts vs ->
-  forall n, jconv_args jconv (ts ++ repeat TSurplus (S n)) (map jnorm vs ++ rest) = None.
+Fixpoint jfits_args (ts : list pty) (vs : list gval) : Prop :=
+  match ts, vs with
+  | TSurplus :: tr, _ :: vr => jfits_args tr vr
+  | t :: tr, v :: vr => jfits v t /\ jfits_args tr vr
+  | _, _ => True
+  end.
+
+Lemma jconv_args_ok : forall ts vs, length ts = length vs ->
+  Forall jrep vs -> jfits_args ts vs ->
+  jconv_args jconv ts (map jnorm vs) = Some (zipconv jconvert_arg ts vs).
 Proof.
-  induction ts as [|t ts IH]; intros [|v vs] rest Hl Hns Hr Hf n; try discriminate.
-  - reflexivity.
-  - cbn [map app jconv_args]. inversion Hns; subst. inversion Hr; subst. destruct Hf as [Hf1 Hf2].
-    destruct t; try contradiction;
-      rewrite (Hvalue _ _ H3 Hf1); rewrite (IH vs rest ltac:(cbn in Hl; lia) H2 H4 Hf2 n); reflexivity.
+  induction ts as [|t ts IH]; intros [|v vs] Hl Hr Hf; try discriminate; [reflexivity|].
+  cbn [map jconv_args zipconv]. inversion Hr; subst.
+  destruct t; cbn [jfits_args jconvert_arg] in *;
+    try (destruct Hf as [Hf1 Hf2]; rewrite (Hvalue _ _ H1 Hf1);
+         rewrite (IH vs ltac:(cbn in Hl; lia) H2 Hf2); reflexivity).
+  rewrite (IH vs ltac:(cbn in Hl; lia) H2 Hf). reflexivity.
 Qed.
 
 Definition jexpected_args (m : method) (args : list gval) : list gval :=
-  if m_missing m then map jnorm args else zipconv jconvert (param_types m (length args)) args.
-
-(* no argument beyond the parameters *)
-Definition no_surplus (m : method) (n : nat) : Prop :=
-  m_missing m = true \/ Forall (fun t => t <> TSurplus) (param_types m n).
+  if m_missing m then map jnorm args else zipconv jconvert_arg (param_types m (length args)) args.
 
 Theorem jsonrpc_request_roundtrip : forall svc counter name args h m,
   name <> [] -> lookup lower svc name = Some m ->
   J_request (jrequest_of counter name args h) -> Forall jrep args ->
-  no_surplus m (length args) -> (m_missing m = false -> jfits_all (param_types m (length args)) args) ->
+  (m_missing m = false -> jfits_args (param_types m (length args)) args) ->
   let '(counter', req) := jclient_encode jmarshal_req counter name args h in
   counter' = (counter + 1)%Z /\
   jservice_decode lower junmarshal_req jconv svc req =
   JSOk (Z.land (counter + 1) 2147483647)
        {| rq_name := name; rq_headers := jnorm_h h; rq_method := m; rq_args := jexpected_args m args |}.
 Proof.
-  intros svc counter name args h m Hname Hlk Hq Ha Hns Hf.
+  intros svc counter name args h m Hname Hlk Hq Ha Hf.
   unfold jclient_encode. split; [reflexivity|].
   unfold jservice_decode. rewrite Hq. unfold jnorm_req, jrequest_of.
   cbn [jq_method jq_id jq_headers jq_params].
@@ -1272,33 +1268,7 @@ Proof.
   rewrite (Eh _ eq_refl), (Ep _ eq_refl). unfold jexpected_args.
   destruct (m_missing m) eqn:Em; [reflexivity|].
   rewrite map_length.
-  destruct Hns as [Hx|Hns]; [congruence|].
-  rewrite (jconv_args_ok _ _ (param_types_length m (length args)) Hns Ha (Hf eq_refl)). reflexivity.
-Qed.
-
-(* more arguments than a non-variadic method has parameters: the service codec panics inside Decode *)
-Theorem jsonrpc_surplus_panics : forall svc counter name args extra h m,
-  name <> [] -> lookup lower svc name = Some m -> m_missing m = false -> m_velem m = None ->
-  length args = length (m_params m) -> Forall (fun t => t <> TSurplus) (m_params m) ->
-  J_request (jrequest_of counter name (args ++ extra) h) -> Forall jrep (args ++ extra) -> extra <> [] ->
-  jfits_all (m_params m) args ->
-  jservice_decode lower junmarshal_req jconv svc
-    (snd (jclient_encode jmarshal_req counter name (args ++ extra) h)) = JSPanic.
-Proof.
-  intros svc counter name args extra h m Hname Hlk Hmiss Hve Hlen Hns Hq Ha Hex Hf.
-  unfold jclient_encode. cbn [snd]. unfold jservice_decode. rewrite Hq. unfold jnorm_req, jrequest_of.
-  cbn [jq_method jq_id jq_headers jq_params].
-  destruct name as [|b name]; [contradiction|]. rewrite Hlk, Hmiss.
-  assert (Ep : forall (o : option (list gval)), o = match args ++ extra with [] => None | _ :: _ => Some (args ++ extra) end ->
-               match option_map (map jnorm) o with Some l => l | None => [] end = map jnorm (args ++ extra))
-    by (intros o ->; destruct (args ++ extra); reflexivity).
-  rewrite (Ep _ eq_refl). rewrite map_length, app_length.
-  unfold param_types. rewrite Hve.
-  rewrite firstn_all2 by lia.
-  destruct extra as [|e extra]; [contradiction|]. cbn [length].
-  replace (length args + S (length extra) - length (m_params m))%nat with (S (length extra)) by lia.
-  rewrite map_app. apply Forall_app in Ha. destruct Ha as [Ha1 Ha2].
-  rewrite (jconv_args_surplus (m_params m) args (map jnorm (e :: extra)) (eq_sym Hlen) Hns Ha1 Hf). reflexivity.
+  rewrite (jconv_args_ok _ _ (param_types_length m (length args)) Ha (Hf eq_refl)). reflexivity.
 Qed.
 
 (* results *)
@@ -1313,14 +1283,14 @@ Definition jexpected_results (rts : list pty) (vs : list gval) : list gval :=
       end
   end.
 
-Lemma jconv_results_ok : forall vs ts, (length vs <= length ts)%nat ->
+Lemma jconv_results_ok : forall vs ts,
   Forall jrep vs -> jfits_all ts vs ->
-  jconv_results jconv ts (map jnorm vs) = Some (Some (zipconv jconvert ts vs)).
+  jconv_results jconv ts (map jnorm vs) = Some (zipconv jconvert ts vs).
 Proof.
-  induction vs as [|v vs IH]; intros ts Hl Hr Hf; [destruct ts; reflexivity|].
-  destruct ts as [|t ts]; [cbn in Hl; lia|]. cbn [map jconv_results zipconv].
+  induction vs as [|v vs IH]; intros ts Hr Hf; [destruct ts; reflexivity|].
+  destruct ts as [|t ts]; [reflexivity|]. cbn [map jconv_results zipconv].
   inversion Hr; subst. destruct Hf as [Hf1 Hf2].
-  rewrite (Hvalue _ _ H1 Hf1). rewrite (IH ts ltac:(cbn in Hl; lia) H2 Hf2). reflexivity.
+  rewrite (Hvalue _ _ H1 Hf1). rewrite (IH ts H2 Hf2). reflexivity.
 Qed.
 
 Lemma jenc_value id v rh : is_error_value v = false -> v <> GNil ->
@@ -1340,7 +1310,7 @@ Theorem jsonrpc_response_roundtrip : forall id rts vs rh,
   match rts with
   | [] => True
   | [t] => jfits (shape vs) t
-  | _ => (2 <= length vs <= length rts)%nat /\ Forall jrep vs /\ jfits_all rts vs
+  | _ => (2 <= length vs)%nat /\ Forall jrep vs /\ jfits_all rts vs
   end ->
   jclient_decode junmarshal_resp jconv rts (jservice_encode jmarshal_resp id (inl (shape vs)) rh) =
   JCRes id (jnorm_h rh) (jexpected_results rts vs).
@@ -1361,34 +1331,9 @@ Proof.
     destruct rts as [|t0 [|t1 rts]].
     + reflexivity.
     + rewrite (Hvalue _ _ Hr Hf). reflexivity.
-    + destruct Hf as [[Hl1 Hl2] [Hrv Hfa]].
+    + destruct Hf as [Hl1 [Hrv Hfa]].
       assert (Esl : shape vs = GSlice vs) by (destruct vs as [|v1 [|v2 vs']]; cbn in Hl1; try lia; reflexivity).
-      rewrite Esl, Harray. rewrite (jconv_results_ok vs _ Hl2 Hrv Hfa). reflexivity.
-Qed.
-
-(* more results than declared return types (two or more declared): the client indexes past ReturnType *)
-Lemma jconv_results_overflow : forall ts vs extra, length ts = length vs -> extra <> [] ->
-  Forall jrep vs -> jfits_all ts vs ->
-  jconv_results jconv ts (map jnorm vs ++ extra) = None.
-Proof.
-  induction ts as [|t ts IH]; intros [|v vs] extra Hl Hex Hr Hf; try discriminate.
-  - destruct extra; [contradiction|reflexivity].
-  - cbn [map app jconv_results]. inversion Hr; subst. destruct Hf as [Hf1 Hf2].
-    rewrite (Hvalue _ _ H1 Hf1). rewrite (IH vs extra ltac:(cbn in Hl; lia) Hex H2 Hf2). reflexivity.
-Qed.
-
-Theorem jsonrpc_more_results_panics : forall id rts vs extra rh,
-  (2 <= length rts)%nat -> length rts = length vs -> extra <> [] ->
-  J_response (jresponse_of id (inl (GSlice (vs ++ extra))) rh) ->
-  Forall jrep vs -> jfits_all rts vs ->
-  jclient_decode junmarshal_resp jconv rts (jservice_encode jmarshal_resp id (inl (GSlice (vs ++ extra))) rh) = JCPanic.
-Proof.
-  intros id rts vs extra rh Hn Hl Hex Hp Hr Hf.
-  unfold jservice_encode, jclient_decode. rewrite Hp. unfold jnorm_resp, jresponse_of.
-  cbn [jp_id jp_headers jp_result jp_error option_map]. rewrite Harray, map_app.
-  destruct rts as [|t0 [|t1 rts]]; [cbn in Hn; lia|cbn in Hn; lia|].
-  rewrite (jconv_results_overflow (t0 :: t1 :: rts) vs (map jnorm extra) Hl); auto.
-  destruct extra; [contradiction|discriminate].
+      rewrite Esl, Harray. rewrite (jconv_results_ok vs _ Hrv Hfa). reflexivity.
 Qed.
 
 (* errors: code / message / data mapping *)
